@@ -145,6 +145,8 @@ def check(chk: Check) -> None:
         q = cls + '.eval'
         units.append((q, F.func(q), None, cls))
     for owner, c, p in common.eval_closures(chk):
+        if common.run_in_place(c, p):
+            continue            # a thunk called by the helper it was handed to: seen on the paths of the eval method itself
         units.append((c.qual, F.func(owner), c, owner.rsplit('.', 1)[0]))
     for q, fi, clo, cls in units:
         owner_q = cls + '.eval'
@@ -168,6 +170,10 @@ def check(chk: Check) -> None:
     # --------------------------------------------------------------------- R5
     for key, ok, where, det in lookup_sites(chk):
         chk.require(ok, R5, key, where, det)
+    # ... of the key the program wrote: a cast that answers from a memo keyed by == looks up '1' for 1.0, so a key that is
+    # missing is found (= C14.R1)
+    from .c14 import key_cast_agreement
+    key_cast_agreement(chk, R5)
     for label, where, text in common.default_factory_dicts(chk):
         chk.bad(R5, '%s returns a dict with a default factory' % label, where,
                 'the value handed to the program is `%s`: reading a missing key of it (d[k], through any keyed read above) inserts the key '
@@ -268,7 +274,7 @@ def lookup_sites(chk: Check) -> List[Tuple[str, bool, str, str]]:
                 ck = '%s :: `%s`' % (fn, e.text())
                 verdict, det = common.conversion_of(F, e, paths, site[1])
                 where = '%s:%d' % (fi.module.rel, e.line)
-                ok = verdict == 'converted'
+                ok = verdict in ('converted', 'defaulted')
                 det2 = det if ok else ('%s of a missing key/index raises KeyError/IndexError here (%s)' % (site[0], det))
                 if ck not in out or not ok:
                     out[ck] = (ok, where, det2)
